@@ -216,8 +216,7 @@ theorem flatMap_map_getD {M : Type} [Mul M] [Zero M] (l v : List M) (hn : 0 < v.
     rw [List.flatMap_cons]
     by_cases h : i < v.length
     · rw [List.getD_append _ _ _ _ (by simpa using h), Nat.div_eq_of_lt h, Nat.mod_eq_of_lt h]
-      simp [List.getD_eq_getElem?_getD, List.getElem?_map, h]
-      rw [List.getElem?_eq_getElem h]; rfl
+      simp [List.getD_eq_getElem?_getD, h]
     · have h' : v.length ≤ i := not_lt.mp h
       rw [List.getD_append_right _ _ _ _ (by simpa using h')]
       simp only [List.length_map]
